@@ -520,6 +520,9 @@ func main() {
 			}
 			trans++
 			res.Nontrivial(fmt.Sprintf("honest|%s|%s", cs, cr))
+			if n <= 3 || n%37 == 0 {
+				res.Sample(map[string]any{"honest_pair": []string{cs, cr}})
+			}
 			checkHonest(cs, cr)
 		}
 	}
@@ -591,7 +594,9 @@ func main() {
 		res.Eval()
 		res.Nontrivial(sc.String())
 		check(sc, x)
-		res.SampleSpread(int64(n), sc.String())
+		if states%400 == 1 {
+			res.Sample(sc.String())
+		}
 	}
 	// (3) extra connections: the real dialExtraConns / acceptExtraConns
 	for _, ex := range []string{"honest", "wrong-code", "rogue-listener-reflect", "rogue-dialer-replay", "rogue-listener-silent"} {
